@@ -200,6 +200,15 @@ def make_prog(spec, plan):
 
 
 
+def sym_lifted(spec, m, t):
+    """SecGrp(Sym(n)) has sectype SecFld(min_order=n) = GF(p), p the least prime >= n; it is lifted (known defect F-C28-2:
+    to_bits TypeError, program never completes) iff t > 0 and m >= p"""
+    if spec[0] != 'sym':
+        return False
+    pn = next(q for q in (2, 3, 5, 7, 11, 13, 17) if q >= spec[1])
+    return t > 0 and m >= pn
+
+
 def reduced_forms(D):
     """all reduced primitive positive definite forms of discriminant D (brute force, independent of mpyc)"""
     import math
@@ -451,6 +460,8 @@ def concurrency_stream(ctx, counters):
     nbad = 0
     try:
         for k, (spec, case) in enumerate(plan):
+            if sym_lifted(spec, m, t):
+                continue
             gname = '%s(%s)' % (spec[0], ','.join(map(str, spec[1:])))
             pname = names[k % len(names)]
             if sim is None:
@@ -544,8 +555,8 @@ def receivers_stream(ctx):
         sim = None
         try:
             for spec in families:
-                if spec == ('sym', 5) and t > 0 and m >= 5:
-                    continue                                  # lifted sectype: F-C28-2
+                if sym_lifted(spec, m, t):
+                    continue                                  # lifted sectype: F-C28-2 (main stream)
                 gname = '%s(%s)' % (spec[0], ','.join(map(str, spec[1:])))
                 rs = rsets if spec[0] not in ('ec', 'cl') or ctx.tier == 'thorough' else rsets[:4] if m == 3 else rsets
                 if sim is None:
@@ -662,10 +673,7 @@ def _run(ctx):
                 finally:
                     sim.close()
                 if not all(isinstance(r, dict) for r in res):
-                    n = spec[1] if spec[0] == 'sym' else None
-                    # sectype of Sym(n) is SecFld(min_order=n) = GF(p), p the least prime >= n; lifted iff t > 0 and m >= p
-                    pn = next((q for q in (2, 3, 5, 7, 11, 13) if n is not None and q >= n), None)
-                    lifted_sym = spec[0] == 'sym' and t > 0 and pn is not None and m >= pn
+                    lifted_sym = sym_lifted(spec, m, t)
                     typeerr = any('Binary field or prime field required' in e for e in errs)
                     ctx.case({'cfg': cfg, 'group': gname, 'failed': True}, kind='failed program')
                     if lifted_sym and typeerr:
@@ -713,6 +721,8 @@ def _run(ctx):
                             coq_meta.append(('bits', cfg, gname, lbl, x, got))
             # aliasing stream: list-taking operations, caller's lists mutated between call and await
             for spec in [('qr', 16), ('sg', 32, 16)] + ctx.n([], [('sym', 5), ('ec', 'Ed25519', 'extended')]):
+                if sym_lifted(spec, m, t):
+                    continue                    # F-C28-2 class: exercised and classified by the main stream
                 gname = '%s(%s)' % (spec[0], ','.join(map(str, spec[1:])))
                 sim = Sim(m=m, t=t, no_prss=no_prss, seed=ctx.seed + 5 * m + 1, log_messages=False, track_tasks=False)
                 errs = []
@@ -745,7 +755,7 @@ def _run(ctx):
             ctx.log('%s: %d outputs checked so far' % (cfg, nout))
     # ---- secure class groups (every @ goes through _reduce/_bit_length/_divmod): fresh simulator per (Delta, config),
     # rounds-based budget so that a hang ends as a violation
-    cl_configs = [(3, 1, False), (3, 1, True), (1, 0, False)] + ctx.n([], [(2, 0, False), (5, 2, False), (5, 2, True)])
+    cl_configs = [(3, 1, False), (3, 1, True), (1, 0, False)] + ctx.n([], [(2, 0, False), (5, 2, False)])
     ncl = 0
     for (m, t, no_prss) in cl_configs:
         cfg = 'm=%d,t=%d,%s' % (m, t, 'noprss' if no_prss else 'prss')
@@ -754,20 +764,24 @@ def _run(ctx):
                 continue
             if no_prss and ctx.tier == 'quick' and D == -1123:
                 continue
+            if D == -2063 and (m, t, no_prss) != (3, 1, False):
+                continue
+            if m >= 5 and D == -23:
+                continue
             forms = reduced_forms(D)
             big = sorted(forms, key=lambda f: -f[0])
             # products / powers of several forms happen on the secure side ((a@b)@a, a@a, ^k); inputs: the forms with the
             # largest leading coefficient (longest reductions) first, then random pairs
-            pairs = [(big[0], big[1 % len(big)]), (big[0], big[0])] + [(rng.choice(forms), rng.choice(forms)) for _ in range(ctx.n(2, 6))]
-            light = m == 1 or no_prss
+            pairs = [(big[0], big[1 % len(big)]), (big[0], big[0])] + [(rng.choice(forms), rng.choice(forms)) for _ in range(ctx.n(2, 4))]
+            light = m == 1 or no_prss or m >= 5 or t == 0
             h = len(forms)                     # class number = group order (prime for these discriminants)
-            plan = {'full': 1 if light and ctx.tier == 'quick' else 2,
+            plan = {'full': 1 if light else 2,
                     'pubexp': [2, -3] if not light else [3],
-                    'secexp': [(3, 5)] if not light or ctx.tier == 'thorough' else [],
+                    'secexp': [(3, 5)] if not light else [],
                     'pubbase_fld': [(h, rng.randrange(1, h))] if h in (3, 5, 7, 11, 13) and (t == 0 or m < h) else [],
                     'pubbase_int': [rng.randrange(1, 6)] if m == 1 else []}
-            if light and ctx.tier == 'quick':
-                pairs = pairs[:3]
+            if light:
+                pairs = pairs[:ctx.n(3, 4)]
             sim = Sim(m=m, t=t, no_prss=no_prss, seed=ctx.seed + 11 * m + 3, log_messages=False, track_tasks=False)
             errs = []
             sim.loop.set_exception_handler(lambda loop, c: errs.append(repr(c.get('exception') or c.get('message'))))
